@@ -45,7 +45,8 @@ std::string op_str(const Op& op) {
     case OP_CALL: o << " obj" << (int)op.obj << '.' << FNN[op.fn] << '(' << (int)op.a1; if (op.fn == F2) o << ',' << (int)op.a2; o << ')'; if (op.k1 == 1) o << " [from a catch handler]"; break;
     case OP_DESTROY_MOCK: case OP_ARM_REPORTER: o << " obj" << (int)op.obj; break;
     case OP_MOVE_MOCK: o << " obj" << (int)op.obj << " -> obj" << (int)op.k1; break;
-    case OP_DESTROY_SEQ: case OP_MOVE_SEQ: case OP_ASSIGN_SEQ: o << " s" << (int)op.s1; break;
+    case OP_ASSIGN_SEQ: o << " s" << (int)op.s1; if (op.k1 == 1) o << " from s" << (int)op.s2; break;
+    case OP_DESTROY_SEQ: case OP_MOVE_SEQ: o << " s" << (int)op.s1; break;
     case OP_NEW_WATCHED: case OP_DELETE_WATCHED: o << " w" << (int)op.obj; break;
     case OP_COPY_WATCHED: case OP_MOVECONS_WATCHED: o << " w" << (int)op.obj << " -> new w" << (int)op.k1; break;
     case OP_ASSIGN_WATCHED: case OP_MOVEASSIGN_WATCHED: o << " w" << (int)op.obj << " = w" << (int)op.k1; break;
